@@ -48,7 +48,11 @@ pub enum Instr {
     Emit(u32, Expr),
     Notify(u32, Expr),
     Req(u32, u32, Expr),
-    Stream(u32, u32, Expr, u32, Vec<Instr>),
+    /// (x, n, e, limit, body, batching): batching = after the first item the consumer first drains with
+    /// `now_or_never()` (a poll with a no-op waker) and only then awaits
+    Stream(u32, u32, Expr, u32, Vec<Instr>, bool),
+    /// a task aborts a named (abortable) command through its AbortHandle
+    AbortCmd(u32),
     Spawn(u32, Vec<Instr>),
     Await(u32),
     Abort(u32),
@@ -101,8 +105,9 @@ impl Instr {
             Instr::Emit(t, e) => list(vec![atom("emit"), atom(t), e.sexp()]),
             Instr::Notify(n, e) => list(vec![atom("notify"), atom(n), e.sexp()]),
             Instr::Req(x, n, e) => list(vec![atom("req"), atom(x), atom(n), e.sexp()]),
-            Instr::Stream(x, n, e, lim, body) => {
-                let mut v = vec![atom("stream"), atom(x), atom(n), e.sexp(), atom(lim)];
+            Instr::AbortCmd(n) => list(vec![atom("abortcmd"), atom(n)]),
+            Instr::Stream(x, n, e, lim, body, batch) => {
+                let mut v = vec![atom(if *batch { "bstream" } else { "stream" }), atom(x), atom(n), e.sexp(), atom(lim)];
                 v.extend(instrs_sexp(body));
                 list(v)
             }
@@ -189,8 +194,12 @@ pub fn parse_instr(s: &Sexp) -> Option<Instr> {
         ("notify", [n, e]) => Instr::Notify(n.num()?, parse_expr(e)?),
         ("req", [x, n, e]) => Instr::Req(x.num()?, n.num()?, parse_expr(e)?),
         ("stream", [x, n, e, lim, body @ ..]) => {
-            Instr::Stream(x.num()?, n.num()?, parse_expr(e)?, lim.num()?, parse_instrs(body)?)
+            Instr::Stream(x.num()?, n.num()?, parse_expr(e)?, lim.num()?, parse_instrs(body)?, false)
         }
+        ("bstream", [x, n, e, lim, body @ ..]) => {
+            Instr::Stream(x.num()?, n.num()?, parse_expr(e)?, lim.num()?, parse_instrs(body)?, true)
+        }
+        ("abortcmd", [n]) => Instr::AbortCmd(n.num()?),
         ("spawn", [h, body @ ..]) => Instr::Spawn(h.num()?, parse_instrs(body)?),
         ("await", [h]) => Instr::Await(h.num()?),
         ("abort", [h]) => Instr::Abort(h.num()?),
@@ -300,7 +309,8 @@ pub fn run_block<Ef: HEffect>(
                     let v = ctx.request_from_shell(TestOp { n: *n, v: env.eval(e) }).await;
                     env.vars.insert(*x, v);
                 }
-                Instr::Stream(x, n, e, limit, body) => {
+                Instr::AbortCmd(name) => abort_by_name(*name),
+                Instr::Stream(x, n, e, limit, body, batch) => {
                     let mut s = ctx.stream_from_shell(TestOp { n: *n, v: env.eval(e) });
                     let body = Arc::new(body.clone());
                     let mut count = 0u32;
@@ -308,7 +318,15 @@ pub fn run_block<Ef: HEffect>(
                         if *limit > 0 && count >= *limit {
                             break;
                         }
-                        match s.next().await {
+                        let item = if *batch && count > 0 {
+                            match s.next().now_or_never() {
+                                Some(item) => item,
+                                None => s.next().await,
+                            }
+                        } else {
+                            s.next().await
+                        };
+                        match item {
                             Some(v) => {
                                 env.vars.insert(*x, v);
                                 env = run_block(ctx.clone(), env, body.clone()).await;
@@ -383,7 +401,8 @@ pub fn run_block_legacy(
                     let v = ctx.request_from_shell(TestOp { n: *n, v: env.eval(e) }).await;
                     env.vars.insert(*x, v);
                 }
-                Instr::Stream(x, n, e, limit, body) => {
+                Instr::AbortCmd(name) => abort_by_name(*name),
+                Instr::Stream(x, n, e, limit, body, batch) => {
                     let mut s = ctx.stream_from_shell(TestOp { n: *n, v: env.eval(e) });
                     let body = Arc::new(body.clone());
                     let mut count = 0u32;
@@ -391,7 +410,15 @@ pub fn run_block_legacy(
                         if *limit > 0 && count >= *limit {
                             break;
                         }
-                        match s.next().await {
+                        let item = if *batch && count > 0 {
+                            match s.next().now_or_never() {
+                                Some(item) => item,
+                                None => s.next().await,
+                            }
+                        } else {
+                            s.next().await
+                        };
+                        match item {
                             Some(v) => {
                                 env.vars.insert(*x, v);
                                 env = run_block_legacy(ctx.clone(), env, body.clone()).await;
@@ -493,6 +520,21 @@ fn build_chain<Ef: HEffect>(is_stream: bool, n: u32, v: i64, stages: &[Stage], t
 /// abort handles by name (`AbortHandle` cannot be named either)
 pub type Aborts = Vec<(u32, Arc<dyn Fn() + Send + Sync>)>;
 
+thread_local! {
+    /// every abort handle registered by `build` since the last `reset_abort_table` (what `(abortcmd N)` consults)
+    pub static ABORT_TABLE: std::cell::RefCell<Aborts> = const { std::cell::RefCell::new(vec![]) };
+}
+pub fn reset_abort_table() {
+    ABORT_TABLE.with(|t| t.borrow_mut().clear());
+}
+/// abort the first command registered under `name` (no-op if there is none)
+pub fn abort_by_name(name: u32) {
+    let h = ABORT_TABLE.with(|t| t.borrow().iter().find(|(n, _)| *n == name).map(|(_, h)| h.clone()));
+    if let Some(h) = h {
+        h();
+    }
+}
+
 /// DSL command → real `Command`, through the public combinator / builder API
 pub fn build<Ef: HEffect>(c: &Cmd, env: &Env, aborts: &mut Aborts) -> Command<Ef, Event> {
     match c {
@@ -540,7 +582,9 @@ pub fn build<Ef: HEffect>(c: &Cmd, env: &Env, aborts: &mut Aborts) -> Command<Ef
         Cmd::Abortable(name, c) => {
             let cmd = build(c, env, aborts);
             let h = cmd.abort_handle();
-            aborts.push((*name, Arc::new(move || h.abort())));
+            let f: Arc<dyn Fn() + Send + Sync> = Arc::new(move || h.abort());
+            ABORT_TABLE.with(|t| t.borrow_mut().push((*name, f.clone())));
+            aborts.push((*name, f));
             cmd
         }
     }
